@@ -376,8 +376,49 @@ def run(chk):
             (n["k"] == "Un" and n["op"] == "-") or (n["k"] == "Flt" and False) for n in walk(f["body"]))
         if negated:
             continue    # a -= b spelt as a += (-b): the same function
-        if used and used != {op}:
-            chk.violation(r_ar, key, "%s applies the operators %s; it must apply only '%s'" % (key, sorted(used), op), f["file"], f["l"])
+        if used != {op}:
+            chk.violation(r_ar, key, "%s applies the operators %s; it must apply exactly '%s'" % (key, sorted(used) or "none at all", op), f["file"], f["l"])
+        # element-wise over the whole set, same index on both sides
+        if f.get("cls") == "Opm::UDQSet" and m.group(2) == "=":
+            loops_ = [n for n in walk(f["body"]) if n["k"] == "For"]
+            ptype = f["params"][0]["t"] if f.get("params") else ""
+            if loops_:
+                lp = loops_[0]
+                lv = [v["n"] for d in walk(lp.get("init") or {}) if d["k"] == "Decl" for v in d["vars"]]
+                lv = lv[0] if lv else None
+                cnd = show(strip(lp["cond"])).replace(" ", "") if isinstance(lp.get("cond"), dict) else ""
+                inc = show(lp.get("inc") or {})
+                body_ = stmt_list(lp["body"])
+                okb = False
+                if len(body_) == 1 and body_[0]["k"] in ("OpCall", "Bin") and body_[0].get("op") == op + "=":
+                    l_, r_ = [show(strip(x)).replace(" ", "") for x in (body_[0].get("a") or body_[0].get("c"))]
+                    pn_ = f["params"][0]["n"]
+                    okb = l_ == "this.values[%s]" % lv and (r_ == "%s[%s]" % (pn_, lv) if "UDQSet" in ptype else r_ == pn_)
+                init0 = [strip(v.get("init") or {}).get("v") for d in walk(lp.get("init") or {}) if d["k"] == "Decl" for v in d["vars"]]
+                ok_loop = lv is not None and init0 == [0] and cnd == "(%s<this.size())" % lv and "++" in inc and okb
+                chk.instance(r_ar, key + ":elementwise", sample=dict(function=key, loop=cnd, body=show(body_[0])[:60] if body_ else None))
+                if not ok_loop:
+                    chk.violation(r_ar, key + ":elementwise", "%s must apply '%s=' to every element: for index in [0, size()): values[index] %s= %s; found loop %s, step %s, body %s" % (key, op, op, "rhs[index]" if "UDQSet" in ptype else "rhs", cnd, inc, [show(b)[:60] for b in body_]), f["file"], lp["l"])
+                if "UDQSet" in ptype:
+                    guards_ = [n for n in stmt_list(f["body"]) if n["k"] == "If" and "size()" in show(n["cond"]) and any(x["k"] == "Throw" for x in walk(n["then"])) and "!=" in show(n["cond"])]
+                    if not guards_:
+                        chk.violation(r_ar, key + ":size", "%s no longer rejects operands of different size before combining them element by element" % key, f["file"], f["l"])
+        # undefined elements propagate (UDQScalar)
+        if f.get("cls") == "Opm::UDQScalar" and m.group(2) == "=":
+            ptype = f["params"][0]["t"] if f.get("params") else ""
+            iffs_ = [n for n in stmt_list(f["body"]) if n["k"] == "If"]
+            okd = False
+            if len(iffs_) == 1:
+                ct = show(iffs_[0]["cond"]).replace(" ", "")
+                pn_ = f["params"][0]["n"]
+                if "UDQScalar" in ptype:
+                    els = iffs_[0].get("else")
+                    okd = ct in ("(this.defined()&&%s.defined())" % pn_, "(%s.defined()&&this.defined())" % pn_) and any(meth(x)[0] == "assign" for x in walk(iffs_[0]["then"])) and els is not None and "nullopt" in show(els)
+                else:
+                    okd = ct == "this.defined()" and any(meth(x)[0] == "assign" for x in walk(iffs_[0]["then"])) and iffs_[0].get("else") is None
+            chk.instance(r_ar, key + ":undefined", sample=dict(function=key, guard=show(iffs_[0]["cond"])[:60] if iffs_ else None, ok=okd))
+            if not okd:
+                chk.violation(r_ar, key + ":undefined", "%s: the result is defined only if every operand is (both defined -> assign(a %s b), otherwise undefined; a plain number leaves an undefined element undefined); found %s" % (key, op, show(iffs_[0])[:120] if iffs_ else "no guard"), f["file"], f["l"])
     # ---- C17.cast: scalar broadcasting
     r_cast = chk.rule("C17.cast", "udq_cast broadcasts the *scalar* operand over the entities of the set operand, keeps each operand on its own side and pairs wells()/groups() with WELL_VAR/GROUP_VAR", floor=4)
     uc = [f for f in fx.fns if f["n"] == "udq_cast" and f["file"].endswith("UDQSet.cpp")]
